@@ -94,7 +94,7 @@ def curvilinear(ny, nx, skew=0.1, radial=False):
 
 def cf2d(ny=3, nx=4, *, bounds=None, as_coords=True, holes=(), skew=0.1, radial=False, ydim='j', xdim='i',
          lat_name='lat', lon_name='lon', attrs=None, time=2, depth=0, extra=True, std_names=True,
-         first_plain=False, bounds_transposed=False):
+         first_plain=False, bounds_transposed=False, lon_transposed=False):
     gx, gy = curvilinear(ny, nx, skew, radial)
     cx = (gx[:-1, :-1] + gx[:-1, 1:] + gx[1:, 1:] + gx[1:, :-1]) / 4
     cy = (gy[:-1, :-1] + gy[:-1, 1:] + gy[1:, 1:] + gy[1:, :-1]) / 4
@@ -115,7 +115,12 @@ def cf2d(ny=3, nx=4, *, bounds=None, as_coords=True, holes=(), skew=0.1, radial=
         lat_attrs['bounds'] = 'lat_bnds'
         lon_attrs['bounds'] = 'lon_bnds'
     tgt[lat_name] = xarray.DataArray(cy, dims=[ydim, xdim], attrs=lat_attrs)
-    tgt[lon_name] = xarray.DataArray(cx, dims=[ydim, xdim], attrs=lon_attrs)
+    if lon_transposed:
+        # the longitude variable stores its two dimensions the other way round than the latitude variable; xarray aligns by name and
+        # CF does not ask for the same order. The grid is the latitude variable's (y, x).
+        tgt[lon_name] = xarray.DataArray(cx.T.copy(), dims=[xdim, ydim], attrs=lon_attrs)
+    else:
+        tgt[lon_name] = xarray.DataArray(cx, dims=[ydim, xdim], attrs=lon_attrs)
     if bounds:
         bx = numpy.stack([gx[:-1, :-1], gx[:-1, 1:], gx[1:, 1:], gx[1:, :-1]], axis=-1)
         by = numpy.stack([gy[:-1, :-1], gy[:-1, 1:], gy[1:, 1:], gy[1:, :-1]], axis=-1)
@@ -155,7 +160,8 @@ def shoc_simple(ny=3, nx=4, **kw):
     return cf2d(ny, nx, ydim='j', xdim='i', **kw)
 
 
-def shoc_standard(ny=3, nx=4, *, node_holes=(), skew=0.1, radial=False, time=2, depth=2, as_coords=True, extra=True, fortran=False):
+def shoc_standard(ny=3, nx=4, *, node_holes=(), skew=0.1, radial=False, time=2, depth=2, as_coords=True, extra=True, fortran=False,
+                  x_transposed=()):
     gx, gy = curvilinear(ny, nx, skew, radial)
     for (hj, hi) in node_holes:
         if 0 <= hj <= ny and 0 <= hi <= nx:
@@ -176,6 +182,8 @@ def shoc_standard(ny=3, nx=4, *, node_holes=(), skew=0.1, radial=False, time=2, 
         ('x_back', x_back, ['j_back', 'i_back']), ('y_back', y_back, ['j_back', 'i_back']),
         ('x_grid', gx, ['j_node', 'i_node']), ('y_grid', gy, ['j_node', 'i_node']),
     ]:
+        if name in x_transposed:
+            arr, dims = arr.T.copy(), dims[::-1]   # this x variable stores its two dimensions the other way round than its y variable
         if fortran:
             arr = numpy.asfortranarray(arr)        # same values, dimensions and shape; column-major memory layout
         tgt[name] = xarray.DataArray(arr, dims=dims, attrs={'units': 'degrees_east' if name[0] == 'x' else 'degrees_north'})
@@ -286,7 +294,7 @@ def _table(rows, width, start_index, fill_mode, fill_value=-999, pad_front=False
 def ugrid(ny=2, nx=3, *, split=(), merge=(), start_index=0, fill='auto', transposed=False,
           tables=(), edge_dimension='auto', coords_as='vars', face_coords=False, time=2, extra=True,
           jitter=0.0, two_name='Two', face_dimension_attr=True, edge_transposed=False, mesh=None, edge_order='first-seen', depth=0,
-          edge_face_missing_first=False):
+          edge_face_missing_first=False, latitude_first=False):
     """tables: subset of {'edge_node','face_edge','edge_face','face_face'} to supply.
     fill: 'auto' (int with _FillValue when ragged, none otherwise) | 'nan' | 'int_fill'."""
     node_x, node_y, faces = mesh if mesh is not None else quad_tri_mesh(ny, nx, split=split, merge=merge, jitter=jitter)
@@ -340,6 +348,15 @@ def ugrid(ny=2, nx=3, *, split=(), merge=(), start_index=0, fill='auto', transpo
         fy = numpy.array([numpy.mean(node_y[f]) for f in faces])
         ctgt['Mesh2_face_x'] = xarray.DataArray(fx, dims=['nMesh2_face'])
         ctgt['Mesh2_face_y'] = xarray.DataArray(fy, dims=['nMesh2_face'])
+    if latitude_first:
+        # the file lists latitude before longitude (and says so with CF attributes): first-listed = first coordinate everywhere
+        mesh_attrs['node_coordinates'] = 'Mesh2_node_y Mesh2_node_x'
+        ctgt['Mesh2_node_y'].attrs['standard_name'] = 'latitude'
+        ctgt['Mesh2_node_x'].attrs['standard_name'] = 'longitude'
+        if face_coords:
+            mesh_attrs['face_coordinates'] = 'Mesh2_face_y Mesh2_face_x'
+            ctgt['Mesh2_face_y'].attrs.update({'standard_name': 'latitude', 'units': 'degrees_north'})
+            ctgt['Mesh2_face_x'].attrs.update({'standard_name': 'longitude', 'units': 'degrees_east'})
     data_vars['Mesh2'] = xarray.DataArray(numpy.int32(0), attrs=mesh_attrs)
     if extra:
         tshape = ([time] if time else [])
